@@ -155,6 +155,7 @@ class Ledger:
         self.fields = fields
         self.pools = {}
         self.counter = 0
+        self.requests = {}     # id(request object) -> [request object, blocks currently holding it]
         self.stats = {'ledger_checks': 0, 'blocks_held': 0, 'claims': 0, 'claims_refused': 0,
                       'nested_held': 0, 'waited_borrows': 0, 'blocks_struck': 0,
                       'adjustments': 0}
@@ -186,6 +187,17 @@ class Ledger:
                     # everything else must have been given back
                     del pool.blocks[key]
             pool.check(loop.time, 'quiescence')
+        # a request object that nobody holds any more has an empty share: whatever was credited
+        # to it while acquiring / holding has been taken back
+        for manager, holders in self.requests.values():
+            if holders:
+                continue
+            self.stats['idle_shares_checked'] = self.stats.get('idle_shares_checked', 0) + 1
+            levels = dict(manager.levels)
+            if any(levels.values()):
+                self.violation('idle-share-not-empty',
+                               'at quiescence the share of a borrow/claim request that nobody '
+                               'holds reads %s' % (levels,))
 
     def new_block(self, pool, amounts):
         self.counter += 1
@@ -246,8 +258,10 @@ def build_for(case):
                     else:
                         manager = res.claim(**amounts) if spec['claim'] \
                             else res.borrow(**amounts)
+                    record = ledger.requests.setdefault(id(manager), [manager, 0])
                     async with manager as share:
                         pool.blocks[block][0] = 'held'
+                        record[1] += 1
                         arena.log(name, 'held', pool.name, amounts)
                         ledger.stats['blocks_held'] += 1
                         if depth:
@@ -296,6 +310,8 @@ def build_for(case):
                 ledger.stats['blocks_struck'] += 1
                 raise
             finally:
+                if block in pool.blocks and pool.blocks[block][0] in ('held', 'releasing'):
+                    record[1] -= 1
                 if block in pool.blocks:
                     pool.blocks[block][0] = 'leaving'
                     pool.blocks[block][2] = time.now
